@@ -21,6 +21,37 @@ import warnings
 
 warnings.filterwarnings('ignore')
 
+PHASES = {}
+
+
+class phase:
+    """with phase('name'): ...  accumulates [wall seconds, CPU seconds of the whole process] per name"""
+
+    def __init__(self, name):
+        self.name = name
+
+    def __enter__(self):
+        self.t, self.c = time.time(), time.process_time()
+
+    def __exit__(self, *a):
+        w = PHASES.setdefault(self.name, [0.0, 0.0])
+        w[0] += time.time() - self.t
+        w[1] += time.process_time() - self.c
+        return False
+
+
+_MARK = [None, 0.0, 0.0]
+
+
+def mark(name):
+    """sequential phases: closes the phase opened by the previous mark() and opens `name` (None = just close)"""
+    now, cpu = time.time(), time.process_time()
+    if _MARK[0] is not None:
+        w = PHASES.setdefault(_MARK[0], [0.0, 0.0])
+        w[0] += now - _MARK[1]
+        w[1] += cpu - _MARK[2]
+    _MARK[:] = [name, now, cpu]
+
 
 # ======================================================================
 # (1) footprint observation of the prange / parallel kernels
@@ -242,6 +273,7 @@ def worker_footprint(seed, tier):
 
     ncalls = 25 if tier == 'quick' else 250
     oob = [0]
+    mark('footprint: recorded kernel calls')
     from spatialpandas.geometry import Line, MultiLine, MultiPoint, MultiPolygon, Polygon
     for _ in range(ncalls):
         n = rng.choice([0, 1, 2, 3, 5, 8])
@@ -275,7 +307,9 @@ def worker_footprint(seed, tier):
             if n:
                 inds = np.array([rng.randrange(n) for _ in range(rng.randint(0, n + 1))], dtype='int64')
                 pts.intersects(sh, inds=inds)
-    return {'records': records, 'python_mode_index_errors': oob[0], 'unavailable': sorted(set(unavailable))}
+    mark(None)
+    return {'records': records, 'python_mode_index_errors': oob[0], 'unavailable': sorted(set(unavailable)),
+            'phase_seconds': {k: [round(v[0], 1), round(v[1], 1)] for k, v in PHASES.items()}}
 
 
 # ======================================================================
@@ -557,18 +591,28 @@ def run_suite(df, right, nparts, tmp, tag, fs_seed, maxdelay, want_trace=False, 
     everything, nothing = (-1e4, -1e4, 1e4, 1e4), (5e4, 5e4, 6e4, 6e4)
     x_mid = float(df['pt'].array.bounds[len(df) // 2][0])
     y_mid = float(df['pt'].array.bounds[len(df) // 3][1])
-    degenerate = {'zero-width': (x_mid, -1e4, x_mid, 1e4), 'zero-height': (-1e4, y_mid, 1e4, y_mid),
-                  'point-box': (x_mid, y_mid, x_mid, y_mid)}
-    for col in ('pt', 'mp', 'ln', 'pg', 'mpg', 'ml'):
+    degenerate = {'zero-width': (x_mid, -1e4, x_mid, 1e4), 'zero-height': (-1e4, y_mid, 1e4, y_mid)}
+    cols = ('pt', 'mp', 'ln', 'pg', 'mpg', 'ml')
+    # degenerate boxes (what .cx[x, :] / .cx[:, y] build) on every column, evaluated in ONE graph together
+    # with a box that matches everything and one that matches nothing, and the scalar cx forms
+    with phase('  of which: Dask degenerate boxes'):
+        names, lazy = [], []
+        for col in cols:
+            s = ddf[col]
+            for bn, b in list(degenerate.items()) + [('everything', everything), ('nothing', nothing)]:
+                names.append(f'intersects_bounds[{bn}]:{col}')
+                lazy.append(s.intersects_bounds(b))
+            # (the scalar cx forms on the two line columns; the history suite puts them to all 7 kinds)
+            if col == 'ln':
+                names.append(f'cx[x, :]:{col}')
+                lazy.append(ddf.set_geometry(col).cx[x_mid, :]['id'])
+            elif col == 'ml':
+                names.append(f'cx[:, y]:{col}')
+                lazy.append(ddf.set_geometry(col).cx[:, y_mid]['id'])
+        for nm, g in zip(names, dask.compute(*lazy)):
+            out[nm] = _h(sorted(g.tolist()) if nm.startswith('cx') else g.sort_index().tolist())
+    for col in cols:
         s = ddf[col]
-        # degenerate boxes (what .cx[x, :] / .cx[:, y] build), evaluated in one graph together with a box
-        # that matches everything and one that matches nothing
-        for bn, b in degenerate.items():
-            got = dask.compute(s.intersects_bounds(b), s.intersects_bounds(everything), s.intersects_bounds(nothing))
-            out[f'intersects_bounds[{bn}]:{col}'] = _h([g.sort_index().tolist() for g in got])
-        g2 = ddf.set_geometry(col)
-        out[f'cx[scalar]:{col}'] = _h([sorted(g2.cx[x_mid, :].compute()['id'].tolist()),
-                                       sorted(g2.cx[:, y_mid].compute()['id'].tolist())])
         out[f'bounds:{col}'] = _floats(s.bounds.compute().sort_index().values)
         out[f'total_bounds:{col}'] = _floats(s.total_bounds)
         out[f'area:{col}'] = _floats(s.area.compute().sort_index().values)
@@ -663,15 +707,20 @@ def worker_sched(seed, tier):
     # large arrays first: the kernels split their iterations over the numba threads only there
     nl = 60000 if tier == 'quick' else 250000
     res['large_n'] = nl
-    res['large'], res['large_unstable'], res['large_scalar_bad'] = large_suite(nl, 5)
+    with phase('large arrays (60 000 elements)'):
+        res['large'], res['large_unstable'], res['large_scalar_bad'] = large_suite(nl, 5)
     # (the same inputs in every process: the seed of the run, not the per-process one)
     from . import c18_float as F
     base_seed = int(os.environ.get('C18_BASE_SEED', '0'))
-    bd, bu = F.big_suite(base_seed)
+    with phase('big single elements'):
+        bd, bu = F.big_suite(base_seed, tier)
     res['large'].update(bd)
     res['large_unstable'] += bu
-    hd, res['history_bad'], res['history_evals'] = F.history_suite(base_seed, tier)
-    res['large'].update(hd)
+    # the history suite is split between the four processes: this one takes the arrays of its share
+    share = int(os.environ.get('C18_HISTORY_SHARE', '0'))
+    res['history_share'] = share
+    with phase('history suite (share %d of 4)' % share):
+        res['history_bad'], res['history_evals'], res['history_arrays'] = F.history_suite(base_seed, tier, share, 4)
     try:
         configs = [('synchronous', 1, 0.0, None)]
         workers = [1, 2, 4, 16]
@@ -684,7 +733,7 @@ def worker_sched(seed, tier):
                 configs.append(('threads', rng.choice(workers), rng.choice([0.0, 0.001, 0.006]),
                                 rng.choice([None, 't{partition}', '{uuid}/t{partition}'])))
         for ci, (sch, w, delay, tf) in enumerate(configs):
-            with dask.config.set(scheduler=sch, num_workers=w):
+            with phase('scheduled runs (%d configurations)' % len(configs)), dask.config.set(scheduler=sch, num_workers=w):
                 want_trace = sch == 'threads' and w in (4, 16)
                 out, extra = run_suite(df, right, 4, tmp, f'c{ci}', rng.randrange(10 ** 6), delay,
                                        want_trace=want_trace, tempdir_format=tf)
@@ -695,6 +744,7 @@ def worker_sched(seed, tier):
                 res['traces'].append(extra)
     finally:
         shutil.rmtree(tmp, ignore_errors=True)
+    res['phase_seconds'] = {k: [round(v[0], 1), round(v[1], 1)] for k, v in PHASES.items()}
     return res
 
 
@@ -884,6 +934,7 @@ def worker_clients(seed, tier):
         (lambda a: a.sindex.covers_overlaps(np.array(obox)),
          lambda r: _h([sorted(np.asarray(r[0]).tolist()), sorted(np.asarray(r[1]).tolist())])),
     ]
+    mark('clients: first access to 250 000-point objects')
     race_mixed('PointArray 250k with missing: bounds / sindex / cx at once',
                lambda: big.copy(), big_accesses, nrounds=8 if tier == 'quick' else 30)
     big_ids = np.arange(nbig)
@@ -900,6 +951,7 @@ def worker_clients(seed, tier):
                  lambda r: _h(sorted(r['id'].tolist())))],
                nrounds=3 if tier == 'quick' else 12)
 
+    mark('clients: 13 kinds of shared object')
     pts = df0['pt'].array
     pgs = df0['pg'].array
     bounds = np.asarray(pgs.bounds, dtype='float64')
@@ -960,6 +1012,7 @@ def worker_clients(seed, tier):
     # frame, which share its Index object) ----
     import pandas as pd
     from spatialpandas import sjoin
+    mark('clients: sjoin on shared frames')
 
     def frame_face(f):
         return (type(f).__name__, list(f.index.names), [str(c) for c in f.columns], len(f))
@@ -1021,6 +1074,7 @@ def worker_clients(seed, tier):
 
     # ---- two pack_partitions_to_parquet computations overlapping in one process and sharing a
     # tempdir_format with {uuid}: same files / rows as the two packs run one after the other ----
+    mark('clients: two overlapping packs')
     dfB, _rb = make_frames(300, 23)
     dfB = dfB.assign(id=dfB['id'] + 100000)
     scratch = tempfile.mkdtemp(prefix='sp_c18_pack2_')
@@ -1081,23 +1135,29 @@ def worker_clients(seed, tier):
     finally:
         shutil.rmtree(scratch, ignore_errors=True)
 
+    mark(None)
     from . import c18_float as F
-    hf, hc = F.client_history(seed, tier, N)
+    with phase('clients: mixed queries on one shared array'):
+        hf, hc = F.client_history(seed, tier, N)
     failures.extend(hf)
     counts['7 kinds of array shared by 8 threads putting mixed (ordinary / all / none / degenerate) queries'] = hc
 
     return {'failures': failures, 'counts': counts, 'clients': N, 'schedules': schedules,
-            'dask_internal': dask_internal, 'spy_unavailable': spy_unavailable}
+            'dask_internal': dask_internal, 'spy_unavailable': spy_unavailable,
+            'phase_seconds': {k: [round(v[0], 1), round(v[1], 1)] for k, v in PHASES.items()}}
 
 
 def main():
     what, seed, tier = sys.argv[1], int(sys.argv[2]), sys.argv[3]
     fn = {'footprint': worker_footprint, 'sched': worker_sched, 'clients': worker_clients}[what]
+    t0, c0 = time.time(), time.process_time()
     try:
         res = fn(seed, tier)
     except Exception:  # noqa: BLE001
         import traceback
         res = {'crashed': traceback.format_exc()[-3000:]}
+    res.setdefault('phase_seconds', {})['whole worker (after interpreter start)'] = [
+        round(time.time() - t0, 1), round(time.process_time() - c0, 1)]
     sys.stdout.write('\n' + json.dumps(res) + '\n')
 
 
